@@ -34,13 +34,18 @@ import (
 
 // ---------- in-memory opdb.Store ----------
 type vc11Store struct {
-	mu   sync.Mutex
-	data map[string]map[string][]byte
+	mu       sync.Mutex
+	data     map[string]map[string][]byte
+	failNext bool // the next Put/Delete returns an error (once)
 }
 
 func (m *vc11Store) Put(_ context.Context, ns, key string, value []byte) error {
 	m.mu.Lock()
 	defer m.mu.Unlock()
+	if m.failNext {
+		m.failNext = false
+		return fmt.Errorf("injected store failure")
+	}
 	if m.data[ns] == nil {
 		m.data[ns] = map[string][]byte{}
 	}
@@ -50,6 +55,10 @@ func (m *vc11Store) Put(_ context.Context, ns, key string, value []byte) error {
 func (m *vc11Store) Delete(_ context.Context, ns, key string) error {
 	m.mu.Lock()
 	defer m.mu.Unlock()
+	if m.failNext {
+		m.failNext = false
+		return fmt.Errorf("injected store failure")
+	}
 	delete(m.data[ns], key)
 	return nil
 }
@@ -80,11 +89,22 @@ func (m *vc11Store) Close() error      { return nil }
 // ---------- fake server stream for BulkSync ----------
 type vc11Stream struct {
 	grpc.ServerStream
-	pages []*hapb.BulkSyncResponse
+	pages  [][]byte // serialized when sent, as gRPC does
+	onSend func(*hapb.BulkSyncResponse)
 }
 
-func (s *vc11Stream) Send(r *hapb.BulkSyncResponse) error { s.pages = append(s.pages, r); return nil }
-func (s *vc11Stream) Context() context.Context            { return context.Background() }
+func (s *vc11Stream) Send(r *hapb.BulkSyncResponse) error {
+	data, err := proto.Marshal(r)
+	if err != nil {
+		return err
+	}
+	s.pages = append(s.pages, data)
+	if s.onSend != nil {
+		s.onSend(r)
+	}
+	return nil
+}
+func (s *vc11Stream) Context() context.Context { return context.Background() }
 
 // ---------- number helpers ----------
 func vc11Big(s string) *big.Int {
@@ -163,21 +183,42 @@ func vc11Rng(f []string) string {
 	res := []string{fmt.Sprintf("size=%d old=%d new=%d", b.Size(), b.OldestSeq(), b.NewestSeq())}
 	nq := vc11Int(f[p])
 	p++
+	// every answer is kept by the caller and read again while the ring goes on being pushed to (token A:<n>):
+	// it must still be what it was when Range returned
+	held := make([][]*hapb.SyncSessionRequest, nq)
+	first := make([]string, nq)
 	for i := 0; i < nq; i++ {
 		from, to := vc11U64(f[p]), vc11U64(f[p+1])
 		p += 2
-		res = append(res, vc11RangeStr(b, from, to))
+		first[i], held[i] = vc11RangeHeld(b, from, to)
+	}
+	after := 0
+	if p < len(f) && strings.HasPrefix(f[p], "A:") {
+		after = vc11Int(f[p][2:])
+	}
+	changed := make([]string, nq)
+	next := b.NewestSeq() + 1
+	for k := 1; k <= after; k++ {
+		b.Push(&hapb.SyncSessionRequest{Sequence: next})
+		next++
+		if capacity > 64 && k != after {
+			continue
+		}
+		for i := range held {
+			if changed[i] == "" && first[i] != "panic" {
+				if now := vc11SeqList(held[i]); now != first[i] {
+					changed[i] = fmt.Sprintf("~>%s@%d", now, k)
+				}
+			}
+		}
+	}
+	for i := range first {
+		res = append(res, first[i]+changed[i])
 	}
 	return strings.Join(res, " ; ")
 }
 
-func vc11RangeStr(b *SyncBacklog, from, to uint64) (out string) {
-	defer func() {
-		if r := recover(); r != nil {
-			out = "panic"
-		}
-	}()
-	l := b.Range(from, to)
+func vc11SeqList(l []*hapb.SyncSessionRequest) string {
 	if len(l) == 0 {
 		return "nil"
 	}
@@ -192,6 +233,16 @@ func vc11RangeStr(b *SyncBacklog, from, to uint64) (out string) {
 	return strings.Join(s, ",")
 }
 
+func vc11RangeHeld(b *SyncBacklog, from, to uint64) (out string, l []*hapb.SyncSessionRequest) {
+	defer func() {
+		if r := recover(); r != nil {
+			out, l = "panic", nil
+		}
+	}()
+	l = b.Range(from, to)
+	return vc11SeqList(l), l
+}
+
 // ---------- hist cases ----------
 type vc11Pool struct {
 	fam     int
@@ -200,16 +251,16 @@ type vc11Pool struct {
 }
 
 type vc11Sess struct {
-	kind                                  string
-	sid, srg                              int
-	rel                                   bool
-	mac                                   *big.Int
-	ov, iv, user                          int
-	v4, v6, pd                            *big.Int // nil when absent
-	v4pool, napool, pdpool, pdlen         int
-	vrf, ppp                              int
-	circ, rem                             string
-	misc                                  uint32
+	kind                          string
+	sid, srg                      int
+	rel                           bool
+	mac                           *big.Int
+	ov, iv, user                  int
+	v4, v6, pd                    *big.Int // nil when absent
+	v4pool, napool, pdpool, pdlen int
+	vrf, ppp                      int
+	circ, rem                     string
+	misc                          uint32
 }
 
 func vc11ParseSess(tok string) *vc11Sess {
@@ -467,48 +518,84 @@ func vc11Hist(f []string) string {
 		}()
 		fn()
 	}
+	fire := func(s *vc11Sess) {
+		// every state other than "released" is replicated as an update
+		st := []models.SessionState{models.SessionStateActive, models.SessionStateUnknown, models.SessionStateDiscovering,
+			models.SessionStateOffered, models.SessionStateRequesting, models.SessionStateTunneled}[(s.user+s.ov+s.iv)%6]
+		if s.rel {
+			st = models.SessionStateReleased
+		}
+		guard(func() {
+			ss.HandleEvent(events.Event{Data: &events.SessionLifecycleEvent{SessionID: vc11Name(s.sid, "s"),
+				State: st, Session: s.build()}})
+		})
+		emitted := false
+	drain:
+		for {
+			select {
+			case q := <-ss.sendCh:
+				sent[vc11SrgIdx(q.SrgName)] = append(sent[vc11SrgIdx(q.SrgName)], q)
+				emitted = true
+			default:
+				break drain
+			}
+		}
+		if emitted { // the active node's live set (specification side)
+			k := fmt.Sprintf("%d/%d", vc11KindNs(s.kind), s.sid)
+			if s.rel {
+				delete(live, k)
+			} else {
+				live[k] = s
+			}
+		}
+	}
+	bulk := func(g int, churn func()) {
+		guard(func() {
+			b := ss.GetBacklog(vc11SrgName(g))
+			if b == nil {
+				return
+			}
+			newest := b.NewestSeq()
+			replay := b.OldestSeq() != 0 && newest != 0
+			st := &vc11Stream{onSend: func(r *hapb.BulkSyncResponse) {
+				if churn != nil && (len(r.Sessions) > 0 || r.Sequence > 0) {
+					churn()
+				}
+			}}
+			if err := srv.BulkSync(&hapb.BulkSyncRequest{SrgNames: []string{vc11SrgName(g)}}, st); err != nil {
+				panic(err)
+			}
+			for _, data := range st.pages {
+				cp := &hapb.BulkSyncResponse{}
+				if err := proto.Unmarshal(data, cp); err != nil {
+					panic(err)
+				}
+				if err := rc.HandleBulkSyncPage(ctx, cp); err != nil {
+					panic(err)
+				}
+			}
+			// the in-order stream resumes behind the sequence the bulk sync ended with
+			if replay && int(newest) > next[g] {
+				next[g] = int(newest)
+			}
+		})
+	}
 	for _, o := range ops {
 		t := strings.Split(o, ":")
+		store.failNext = false
 		switch t[0] {
 		case "E":
-			s := vc11ParseSess(o)
-			// every state other than "released" is replicated as an update
-			st := []models.SessionState{models.SessionStateActive, models.SessionStateUnknown, models.SessionStateDiscovering,
-				models.SessionStateOffered, models.SessionStateRequesting, models.SessionStateTunneled}[(s.user+s.ov+s.iv)%6]
-			if s.rel {
-				st = models.SessionStateReleased
-			}
-			guard(func() {
-				ss.HandleEvent(events.Event{Data: &events.SessionLifecycleEvent{SessionID: vc11Name(s.sid, "s"),
-					State: st, Session: s.build()}})
-			})
-			emitted := false
-		drain:
-			for {
-				select {
-				case q := <-ss.sendCh:
-					sent[vc11SrgIdx(q.SrgName)] = append(sent[vc11SrgIdx(q.SrgName)], q)
-					emitted = true
-				default:
-					break drain
-				}
-			}
-			if emitted { // the active node's live set (specification side)
-				k := fmt.Sprintf("%d/%d", vc11KindNs(s.kind), s.sid)
-				if s.rel {
-					delete(live, k)
-				} else {
-					live[k] = s
-				}
-			}
-		case "D":
+			fire(vc11ParseSess(o))
+		case "D", "DF":
+			store.failNext = t[0] == "DF"
 			g := vc11Int(t[1])
 			if next[g] < len(sent[g]) {
 				q := sent[g][next[g]]
 				next[g]++
 				guard(func() { rc.HandleSyncSession(ctx, vc11Clone(q)) })
 			}
-		case "R":
+		case "R", "RF":
+			store.failNext = t[0] == "RF"
 			g := vc11Int(t[1])
 			seq := vc11U64(t[2])
 			for _, q := range sent[g] {
@@ -518,6 +605,7 @@ func vc11Hist(f []string) string {
 				}
 			}
 		case "P":
+			store.failNext = false
 			g := vc11Int(t[1])
 			guard(func() {
 				b := ss.GetBacklog(vc11SrgName(g))
@@ -532,24 +620,13 @@ func vc11Hist(f []string) string {
 				}
 			})
 		case "B":
-			g := vc11Int(t[1])
-			guard(func() {
-				if ss.GetBacklog(vc11SrgName(g)) == nil {
-					return
-				}
-				st := &vc11Stream{}
-				if err := srv.BulkSync(&hapb.BulkSyncRequest{SrgNames: []string{vc11SrgName(g)}}, st); err != nil {
-					panic(err)
-				}
-				for _, pg := range st.pages {
-					data, _ := proto.Marshal(pg)
-					cp := &hapb.BulkSyncResponse{}
-					if err := proto.Unmarshal(data, cp); err != nil {
-						panic(err)
-					}
-					if err := rc.HandleBulkSyncPage(ctx, cp); err != nil {
-						panic(err)
-					}
+			bulk(vc11Int(t[1]), nil)
+		case "C": // C:<srg>:<k>:<event fields>: k more events after every page sent
+			k := vc11Int(t[2])
+			ev := vc11ParseSess("E:" + strings.Join(t[3:], ":"))
+			bulk(vc11Int(t[1]), func() {
+				for i := 0; i < k; i++ {
+					fire(ev)
 				}
 			})
 		}
